@@ -439,7 +439,19 @@ func encodePathAttrs(b *bytes.Buffer, asn uint32, ibgp, fbasn bool, nextHop net.
 	return nil
 }
 
+// maxWithdrawnPrefixes is the number of IPv4 prefixes (at most 5 bytes each) that
+// always fit in an UPDATE of at most 4096 bytes (RFC 4271 section 4).
+const maxWithdrawnPrefixes = 800
+
 func sendWithdraw(w io.Writer, prefixes []*net.IPNet) error {
+	// Split the withdrawal in several messages if it does not fit in one.
+	for len(prefixes) > maxWithdrawnPrefixes {
+		if err := sendWithdraw(w, prefixes[:maxWithdrawnPrefixes]); err != nil {
+			return err
+		}
+		prefixes = prefixes[maxWithdrawnPrefixes:]
+	}
+
 	var b bytes.Buffer
 
 	hdr := struct {
